@@ -536,7 +536,7 @@ fn assumptions(prop: &str) -> Vec<String> {
         v.push("swap and oracle are stub contracts with enumerated behaviours (E5); equations that depend on them are asserted only in mode ok/ok".to_string());
     }
     if prop == "C12" {
-        v.push("decided only on the inputs the live system presents to calculate_delegations / calculate_undelegations (in situ); no stand-alone input generator".to_string());
+        v.push("decided on the inputs the live system presents to calculate_delegations / calculate_undelegations (in situ) plus direct probes of both functions at every reached delegation layout with boundary amounts (0, 1, n-1, n, total-n, total-(n-1), total-1, total, total+1, three derived ones) in ascending, descending and one rotated order; no stand-alone layout generator".to_string());
     }
     v
 }
